@@ -4,6 +4,9 @@ mod processor;
 mod runner;
 mod state;
 
+#[cfg(feature = "ipa-verif")]
+pub(crate) use runner::VerifHybridQuery;
+
 use completion::Handle as CompletionHandle;
 pub use executor::Result as ProtocolResult;
 pub use processor::{
